@@ -2024,13 +2024,6 @@ fn new_codec<'a, const N: usize>(config: &ServerConfig<SslConfig>, context: udp_
         Ok(udp__SessionCodec::<'a, N>::new(context, udp__AEADCipherCodec::new(config.cipher)))
     }
 
-//@@ octo-squirrel-server/src/server/shadowsocks.rs:396-400  mod tcp / impl From for PayloadCodec  sha=2594280010b53db2
-impl<const N: usize> From<&ServerContext<N>> for sssrv__PayloadCodec<N> {
-        fn from(value: &ServerContext<N>) -> Self {
-            Self::new(value.0.clone(), Mode::Server, None)
-        }
-    }
-
 //@@ octo-squirrel-server/src/server/shadowsocks.rs:84-170  fn startup_udp  sha=eea43b948751bef5
 fn startup_udp<const N: usize>(config: &ServerConfig<SslConfig>, user_manager: &Arc<ServerUserManager<N>>, Tracked(vlog): Tracked<&mut AssocLog>) -> anyhow::Result<()> {
     if !config.mode.enable_udp() && !config.mode.enable_quic() {
